@@ -568,7 +568,7 @@ Definition frame_tokens (kind : string) (sa sb : settings) (ta tb : tokens) : bo
     end
   else true.
 
-Definition prop_frame (p : tg_pair) : bool :=
+Definition prop_frame_raw (p : tg_pair) : bool :=
   let sa := settings_of (tg_spec (tp_a p)) in
   let sb := settings_of (tg_spec (tp_b p)) in
   match tg_gen (tp_a p), tg_gen (tp_b p) with
@@ -654,6 +654,15 @@ Definition switches_case (c : tg_case) : bool :=
   end.
 
 Definition prop_switches (p : tg_pair) : bool := switches_case (tp_a p) && switches_case (tp_b p).
+
+(** hypothesis of [C09_root_rename]: the root ident occurs nowhere else in the inputs
+    (registry identifiers -- path segments, field and variant names -- and user tokens) *)
+Definition prop_frame (p : tg_pair) : bool :=
+  if String.eqb (tp_kind p) "root" &&
+     (let inputs := user_tokens (settings_of (tg_spec (tp_a p))) ++ registry_idents (tg_reg (tp_a p)) in
+      existsb (String.eqb (s_root (settings_of (tg_spec (tp_a p))))) inputs ||
+      existsb (String.eqb (s_root (settings_of (tg_spec (tp_b p))))) inputs)
+  then true else prop_frame_raw p.
 
 (** finding F18: [types_equal] is INCOMPLETE on coincidences: two instantiations whose argument
     coincides with the concrete type of another field on BOTH sides (Baz<bool, X> and Baz<bool, Y>
